@@ -323,6 +323,42 @@ class store_catalogue:
             r = fn(x, tgt, return_stored=True)
             r = r[0] if isinstance(r, (list, tuple)) else r
             return [(tgt, tuple(slice(0, n) for n in shp), expected), ("stored", np.asarray(r.compute()), expected)]
+        if mode == "lazy_stored_indexed":
+            # the lazily stored array (compute=False, return_stored=True) is an ordinary array: indexing it must work
+            out = []
+            for ix in ((slice(1, None),), ([0],), (0,)):
+                if x.ndim == 0 or shp[0] < 2:
+                    continue
+                tgt = np.full(shp, -7.0)
+                r = fn(x, tgt, return_stored=True, compute=False)
+                r = r[0] if isinstance(r, (list, tuple)) else r
+                out.append(("stored", np.asarray(r[ix].compute()), np.asarray(expected)[ix]))
+            return out
+        if mode == "return_stored_loaded":
+            tgt = np.full(shp, -7.0)
+            r = fn(x, tgt, return_stored=True, load_stored=True)
+            r = r[0] if isinstance(r, (list, tuple)) else r
+            return [(tgt, tuple(slice(0, n) for n in shp), expected), ("stored", np.asarray(r.compute()), expected)]
+        if mode in ("npy_stack", "npy_stack_reuse"):
+            # round trip through a stack of .npy files; `reuse`: the directory first held another (differently shaped) stack
+            # that was read, and is still referenced, before it is overwritten
+            import shutil
+            import tempfile
+            import dask_array as da
+            if x.ndim == 0:
+                return []
+            d = tempfile.mkdtemp(prefix="verif_npy_")
+            try:
+                keep = None
+                if mode == "npy_stack_reuse":
+                    da.to_npy_stack(d, da.from_array(np.arange(4.0).reshape((4,) + (1,) * (x.ndim - 1)), chunks=2), axis=0)
+                    keep = da.from_npy_stack(d)
+                    keep.chunks
+                da.to_npy_stack(d, x.rechunk({i: -1 for i in range(1, x.ndim)}) if x.ndim > 1 else x, axis=0)
+                back = da.from_npy_stack(d)
+                return [("stored", np.asarray(back.compute()), expected), ("stored", np.asarray(back.shape, dtype=float), np.asarray(shp, dtype=float))]
+            finally:
+                shutil.rmtree(d, ignore_errors=True)
         raise ValueError(mode)
 
     def requires(entry, tier, mode):
@@ -346,14 +382,14 @@ class store_catalogue:
         return {"written-region-equals-source": ok_written, "outside-region-untouched": ok_untouched, "mode-specific": ok_extra}
 
     def domain(tier, rng):
-        modes = ["whole", "region", "strided"] if tier == "quick" else ["whole", "region", "strided", "two", "delayed", "return_stored"]
+        modes = ["whole", "region", "strided"] if tier == "quick" else ["whole", "region", "strided", "two", "delayed", "return_stored", "return_stored_loaded", "npy_stack", "npy_stack_reuse", "lazy_stored_indexed"]
         names = list(entries(tier, 0))
         for i, name in enumerate(names):
             for m in modes:
                 yield {"entry": name, "tier": tier, "mode": m}
         if tier == "quick":
             for name in names[::7]:
-                for m in ("two", "delayed", "return_stored"):
+                for m in ("two", "delayed", "return_stored", "return_stored_loaded", "npy_stack", "npy_stack_reuse", "lazy_stored_indexed"):
                     yield {"entry": name, "tier": tier, "mode": m}
 
 
